@@ -418,3 +418,11 @@ Definition resolve_side (st hasgo : statfn) (gsrc d ip : path) : bool :=
 (** a filesystem: every ancestor of a directory is a directory; Go files live in directories *)
 Definition fs_closed (st : statfn) : Prop := forall p q, st (p ++ q) = true -> st p = true.
 Definition fs_hasgo_dir (st hasgo : statfn) : Prop := forall p, hasgo p = true -> st p = true.
+
+(* ------------------------------------------------------------------ *)
+(** * Notation for concrete cases *)
+
+Definition pth (x : string) : path := filter nonempty (split slash (s x)).
+Definition mkpkg (d : string) (imps : list string) : pkg := {| pdir := pth d; pimps := map pth imps |}.
+Definition mkctx (gsrc entry : string) (t : tree) : ctx :=
+  {| c_gsrc := pth gsrc; c_entry := pth entry; c_tree := t |}.
